@@ -103,14 +103,17 @@ def build(repo: Repo, case: SimCase, samples: List[Dict[str, Fraction]], decisio
     return it
 
 
-def run_match_loop(repo: Repo, case: SimCase, samples) -> List[Outcome]:
+def run_match_loop(repo: Repo, case: SimCase, samples, fast: bool = False) -> List[Outcome]:
+    """fast=True: the fast simulator's chunk matcher on a chunk of exactly this one candle (a 1m route in fast mode)"""
     mod = repo.module(W.BT)
-    fn = repo.func(W.BT, "_simulate_price_change_effect")
+    name = "_simulate_price_change_effect_multiple_candles" if fast else "_simulate_price_change_effect"
+    fn = repo.func(W.BT, name)
 
     def mk(dec):
         it = build(repo, case, samples, dec)
-        return it, lambda it: it.call(FuncV(fn, mod, qual="_simulate_price_change_effect"),
-                                      [W.candle(), "Sandbox", "BTC-USDT"], {})
+        if fast:
+            it.stubs[f"{W.HELPERS}:is_backtesting"] = lambda i, a, k: True
+        return it, lambda it: it.call(FuncV(fn, mod, qual=name), [Arr2([W.candle()]) if fast else W.candle(), "Sandbox", "BTC-USDT"], {})
     return explore(mk, max_paths=64)
 
 
